@@ -169,8 +169,11 @@ def _quad_native(args):
 def _quad_gen(rng, case):
     code = P_VARIANTS[case["p"]]
     p = [_nobs(rng, rng.uniform(0.5, 1.5)) if c == "o" else rng.uniform(0.5, 1.5) for c in code]
-    a_ = _nobs(rng, rng.uniform(0.0, 0.4)) if case["a"] == "obs" else rng.uniform(0.0, 0.4)
-    b_ = _nobs(rng, rng.uniform(0.8, 1.6)) if case["b"] == "obs" else rng.uniform(0.8, 1.6)
+    lo, hi = rng.uniform(0.0, 0.4), rng.uniform(0.8, 1.6)
+    if rng.random() < 0.4:
+        lo, hi = hi, lo            # integration from the larger to the smaller limit is legitimate
+    a_ = _nobs(rng, lo) if case["a"] == "obs" else lo
+    b_ = _nobs(rng, hi) if case["b"] == "obs" else hi
     return dict(func="poly+sin", p=p, a=a_, b=b_, kwargs={})
 
 
@@ -209,16 +212,17 @@ def _quad_post_native(a, r):
 def _fr_native(args):
     from pyvc.native import repo_module
     mod = repo_module("pyerrors.roots")
-    return mod.find_root(args["d"], lambda x, d: x ** 3 + x - d, args["guess"])
+    sgn = 1.0 if args["func"] == "x^3+x-d" else -1.0      # the second family is decreasing in x: d - x^3 - x
+    return mod.find_root(args["d"], lambda x, d: sgn * (x ** 3 + x - d), args["guess"])
 
 
 def _fr_gen(rng, case):
-    return dict(d=_nobs(rng, rng.uniform(0.5, 3.0)), func="x^3+x-d", guess=1.0, kwargs={})
+    return dict(d=_nobs(rng, rng.uniform(0.5, 3.0)), func=rng.choice(["x^3+x-d", "d-x^3-x"]), guess=1.0, kwargs={})
 
 
 def _fr_post_native(a, r):
     import numpy as np
     x, d = float(r.value), float(a.d.value)
-    g = 1.0 / (3 * x * x + 1)
+    g = 1.0 / (3 * x * x + 1)      # dx/dd of the explicit inverse, the same for both sign conventions of the root function
     return {"root": abs(x ** 3 + x - d) <= 1e-8,
             "inverse-function gradient": bool(np.allclose(r.deltas["A"], g * a.d.deltas["A"], rtol=1e-6, atol=1e-12))}
